@@ -92,7 +92,7 @@ pub fn memchr_op(a: &[&str], dispatched: bool) -> Option<String> {
         return None;
     }
     let p = Placed::new(&hay, base);
-    verif::reset();
+    crate::vreset();
     verif::register_region(p.ptr(), hay.len());
     let (s, e) = unsafe { (p.ptr().add(soff), p.ptr().add(eoff)) };
     let n = &needles;
@@ -171,7 +171,7 @@ pub fn count_op(a: &[&str], dispatched: bool) -> Option<String> {
     }
     let n1 = needles[0];
     let p = Placed::new(&hay, base);
-    verif::reset();
+    crate::vreset();
     verif::register_region(p.ptr(), hay.len());
     let (s, e) = unsafe { (p.ptr().add(soff), p.ptr().add(eoff)) };
     let (r, allocs) = alloc_probe::measure(|| -> Option<usize> {
@@ -201,24 +201,41 @@ pub fn count_op(a: &[&str], dispatched: bool) -> Option<String> {
     Some(tail(r.to_string(), oracle.to_string(), allocs))
 }
 
-/// Drive any double-ended byte iterator with an op string; `c` counts a clone.
-fn drive_iter<I>(mut it: I, ops: &str, out: &mut Vec<String>) -> Option<()>
+/// Drive any double-ended byte iterator with an op string; `c` counts a clone. Results go
+/// into a pre-reserved vector of plain values so that the driver itself does not allocate
+/// inside the measured region.
+#[derive(Clone, Copy)]
+enum IterOut {
+    Idx(Option<usize>),
+    Hint(usize, Option<usize>),
+    Cnt(usize),
+}
+
+fn drive_iter<I>(mut it: I, ops: &str, out: &mut Vec<IterOut>) -> Option<()>
 where
     I: DoubleEndedIterator<Item = usize> + Clone,
 {
     for ch in ops.chars() {
         match ch {
-            'n' => out.push(fmt_opt(it.next())),
-            'b' => out.push(fmt_opt(it.next_back())),
+            'n' => out.push(IterOut::Idx(it.next())),
+            'b' => out.push(IterOut::Idx(it.next_back())),
             's' => {
                 let (lo, hi) = it.size_hint();
-                out.push(format!("{}:{}", lo, hi.map(|h| h.to_string()).unwrap_or("inf".into())));
+                out.push(IterOut::Hint(lo, hi));
             }
-            'c' => out.push(it.clone().count().to_string()),
+            'c' => out.push(IterOut::Cnt(it.clone().count())),
             _ => return None,
         }
     }
     Some(())
+}
+
+fn fmt_iter_out(o: &IterOut) -> String {
+    match *o {
+        IterOut::Idx(r) => fmt_opt(r),
+        IterOut::Hint(lo, hi) => format!("{}:{}", lo, hi.map(|h| h.to_string()).unwrap_or("inf".into())),
+        IterOut::Cnt(k) => k.to_string(),
+    }
 }
 
 /// naive model of the same op string
@@ -252,11 +269,11 @@ pub fn iter_op(a: &[&str], dispatched: bool) -> Option<String> {
         return None;
     }
     let p = Placed::new(&hay, base);
-    verif::reset();
+    crate::vreset();
     verif::register_region(p.ptr(), hay.len());
     let n = &needles;
     let h = p.slice();
-    let mut out = Vec::new();
+    let mut out: Vec<IterOut> = Vec::with_capacity(ops.len() + 1);
     macro_rules! via {
         ($module:path, $new:expr) => {{
             use $module as m;
@@ -315,6 +332,7 @@ pub fn iter_op(a: &[&str], dispatched: bool) -> Option<String> {
         });
         (r?, al)
     };
+    let out: Vec<String> = out.iter().map(fmt_iter_out).collect();
     // oracle: positions exact; size_hint must bracket (checked here, reported as the value)
     let naive = naive_iter(&hay, &needles, ops);
     let mut oracle = Vec::new();
@@ -378,7 +396,7 @@ pub fn find_op(a: &[&str]) -> Option<String> {
     let pn = Placed::new(&needle, NEEDLE_BASE);
     let ph = Placed::new(&hay, usz(a[6])?);
     let f = build(a[1], a[2], pn.slice())?;
-    verif::reset();
+    crate::vreset();
     verif::register_region(ph.ptr(), hay.len());
     verif::register_region(pn.ptr(), needle.len());
     let ((r, s1, s2), allocs) =
@@ -393,7 +411,7 @@ pub fn fnew_op(a: &[&str]) -> Option<String> {
     }
     let needle = parse_bytes(a[3])?;
     let pn = Placed::new(&needle, NEEDLE_BASE);
-    verif::reset();
+    crate::vreset();
     verif::register_region(pn.ptr(), needle.len());
     let f = build(a[1], a[2], pn.slice())?;
     let rep = verif::take();
@@ -401,7 +419,7 @@ pub fn fnew_op(a: &[&str]) -> Option<String> {
     let steps: u64 = rep.ticks.iter().sum();
     // probe search to learn the strategy (recorded by the hook at search time)
     let probe = vec![0u8; std::cmp::max(needle.len() + 64, 128)];
-    verif::reset();
+    crate::vreset();
     let _ = f.find(&probe);
     let rep2 = verif::take();
     let mut name = String::from("?");
@@ -433,7 +451,7 @@ pub fn rfind_op(a: &[&str]) -> Option<String> {
     let pn = Placed::new(&needle, NEEDLE_BASE);
     let ph = Placed::new(&hay, usz(a[2])?);
     let f = memchr::memmem::FinderRev::new(pn.slice());
-    verif::reset();
+    crate::vreset();
     verif::register_region(ph.ptr(), hay.len());
     verif::register_region(pn.ptr(), needle.len());
     let (r, allocs) = alloc_probe::measure(|| f.rfind(ph.slice()));
@@ -449,7 +467,7 @@ pub fn oneshot_op(a: &[&str]) -> Option<String> {
     let hay = parse_bytes(a[4])?;
     let pn = Placed::new(&needle, NEEDLE_BASE);
     let ph = Placed::new(&hay, usz(a[3])?);
-    verif::reset();
+    crate::vreset();
     verif::register_region(ph.ptr(), hay.len());
     verif::register_region(pn.ptr(), needle.len());
     let (r, oracle, allocs) = match a[1] {
@@ -507,7 +525,7 @@ pub fn finditer_op(a: &[&str]) -> Option<String> {
     let pn = Placed::new(&needle, NEEDLE_BASE);
     let ph = Placed::new(&hay, usz(a[4])?);
     let f = build(a[1], a[2], pn.slice())?;
-    verif::reset();
+    crate::vreset();
     verif::set_trace(false);
     verif::register_region(ph.ptr(), hay.len());
     verif::register_region(pn.ptr(), needle.len());
@@ -515,15 +533,17 @@ pub fn finditer_op(a: &[&str]) -> Option<String> {
     let mut k = 0usize;
     let mut out = Vec::new();
     let mut oracle = Vec::new();
+    let mut search_allocs = 0u64;
     let mut it: memchr::memmem::FindIter<'_, '_> = f.find_iter(ph.slice());
     let mut owned: Option<memchr::memmem::FindIter<'_, 'static>> = None;
     for ch in ops.chars() {
         match ch {
             'n' => {
-                let r = match owned.as_mut() {
+                let (r, al) = alloc_probe::measure(|| match owned.as_mut() {
                     Some(o) => o.next(),
                     None => it.next(),
-                };
+                });
+                search_allocs += al;
                 out.push(fmt_opt(r));
                 oracle.push(fmt_opt(expect.get(k).copied()));
                 if k < expect.len() {
@@ -531,10 +551,11 @@ pub fn finditer_op(a: &[&str]) -> Option<String> {
                 }
             }
             's' => {
-                let (lo, hi) = match owned.as_ref() {
+                let ((lo, hi), al) = alloc_probe::measure(|| match owned.as_ref() {
                     Some(o) => o.size_hint(),
                     None => it.size_hint(),
-                };
+                });
+                search_allocs += al;
                 let got = format!("{}:{}", lo, hi.map(|h| h.to_string()).unwrap_or("inf".into()));
                 let remaining = expect.len() - k;
                 let ok = lo <= remaining && hi.map_or(true, |h| h >= remaining);
@@ -554,7 +575,7 @@ pub fn finditer_op(a: &[&str]) -> Option<String> {
         }
     }
     let j = |v: &Vec<String>| if v.is_empty() { "-".to_string() } else { v.join(",") };
-    Some(tail(j(&out), j(&oracle), 0))
+    Some(tail(j(&out), j(&oracle), search_allocs))
 }
 
 /// `rfinditer <cfg> <needle> <hbase> <hay> <ops>` (ops over n k o)
@@ -568,7 +589,7 @@ pub fn rfinditer_op(a: &[&str]) -> Option<String> {
     let pn = Placed::new(&needle, NEEDLE_BASE);
     let ph = Placed::new(&hay, usz(a[2])?);
     let f = memchr::memmem::FinderRev::new(pn.slice());
-    verif::reset();
+    crate::vreset();
     verif::set_trace(false);
     verif::register_region(ph.ptr(), hay.len());
     verif::register_region(pn.ptr(), needle.len());
@@ -576,15 +597,17 @@ pub fn rfinditer_op(a: &[&str]) -> Option<String> {
     let mut k = 0usize;
     let mut out = Vec::new();
     let mut oracle = Vec::new();
+    let mut search_allocs = 0u64;
     let mut it = f.rfind_iter(ph.slice());
     let mut owned: Option<memchr::memmem::FindRevIter<'_, 'static>> = None;
     for ch in ops.chars() {
         match ch {
             'n' => {
-                let r = match owned.as_mut() {
+                let (r, al) = alloc_probe::measure(|| match owned.as_mut() {
                     Some(o) => o.next(),
                     None => it.next(),
-                };
+                });
+                search_allocs += al;
                 out.push(fmt_opt(r));
                 oracle.push(fmt_opt(expect.get(k).copied()));
                 if k < expect.len() {
@@ -604,10 +627,12 @@ pub fn rfinditer_op(a: &[&str]) -> Option<String> {
         }
     }
     let j = |v: &Vec<String>| if v.is_empty() { "-".to_string() } else { v.join(",") };
-    Some(tail(j(&out), j(&oracle), 0))
+    Some(tail(j(&out), j(&oracle), search_allocs))
 }
 
-/// `finderops <cfg> <pf> <needle> <ops>`; ops `,`-separated: `f:<hay>` `r` `o` `k` `n`
+/// `finderops <cfg> <pf> <needle> <ops>`; ops `,`-separated: `f:<hay>` `r` `o` `k` `n`.
+/// `allocs` counts heap allocations made inside the memchr calls only (harness bookkeeping is
+/// outside the measured closures); `steps` excludes construction.
 pub fn finderops_op(a: &[&str]) -> Option<String> {
     if a.len() != 4 {
         return None;
@@ -616,90 +641,88 @@ pub fn finderops_op(a: &[&str]) -> Option<String> {
     let ops: Vec<&str> = if a[3] == "-" { vec![] } else { a[3].split(',').collect() };
     // the needle buffer is heap-owned here so that it can be overwritten after `into_owned`
     let mut nbuf = needle.clone();
-    let hays: Vec<Option<Vec<u8>>> =
-        ops.iter().map(|o| o.strip_prefix("f:").and_then(parse_bytes)).collect();
-    verif::reset();
-    verif::set_trace(false);
-    let mut out = Vec::new();
-    let mut oracle = Vec::new();
+    let mut hays: Vec<Option<(Vec<u8>, Placed)>> = Vec::new();
+    for o in ops.iter() {
+        match o.strip_prefix("f:") {
+            Some(h) => {
+                let b = parse_bytes(h)?;
+                let p = Placed::new(&b, 65536);
+                hays.push(Some((b, p)));
+            }
+            None => hays.push(None),
+        }
+    }
+    let mut out: Vec<String> = Vec::with_capacity(ops.len() + 2);
+    let mut oracle: Vec<String> = Vec::with_capacity(ops.len() + 2);
     let mut total_allocs = 0u64;
+    let steps;
     {
-        let f0 = build(a[1], "default", &nbuf)?;
-        enum H<'a> {
-            B(memchr::memmem::Finder<'a>),
-            O(memchr::memmem::Finder<'static>),
-        }
-        let mut cur = H::B(f0);
+        // Every handle is a `Finder<'static>`: the needle buffer and the finders that `as_ref`
+        // borrows from are leaked (outside the measured closures), so that `r` can really
+        // continue with the borrowed copy.
+        let nleak: &'static mut [u8] = Box::leak(nbuf.clone().into_boxed_slice());
+        let nptr = nleak.as_mut_ptr();
+        let nlen = nleak.len();
+        let nstatic: &'static [u8] = unsafe { core::slice::from_raw_parts(nptr, nlen) };
+        let mut cur: memchr::memmem::Finder<'static> = build(a[1], "default", nstatic)?;
+        let mut borrowed_alive = true; // some live handle may still borrow the original buffer
+        let mut is_owned = false;
+        crate::vreset();
+        verif::set_trace(false);
         for (i, op) in ops.iter().enumerate() {
-            let (_, al) = alloc_probe::measure(|| {
-                if op.starts_with("f:") {
-                    let hay = hays[i].as_ref().unwrap();
-                    let r = match &cur {
-                        H::B(f) => f.find(hay),
-                        H::O(f) => f.find(hay),
-                    };
-                    out.push(fmt_opt(r));
-                    oracle.push(fmt_opt(naive_find(hay, &needle)));
-                } else if *op == "n" {
-                    let nd = match &cur {
-                        H::B(f) => f.needle().to_vec(),
-                        H::O(f) => f.needle().to_vec(),
-                    };
-                    out.push(crate::ops2::hex(&nd));
-                    oracle.push(crate::ops2::hex(&needle));
-                } else if *op == "k" {
-                    cur = match &cur {
-                        H::B(f) => H::B(f.clone()),
-                        H::O(f) => H::O(f.clone()),
-                    };
-                } else if *op == "o" {
-                    cur = match &cur {
-                        H::B(f) => H::O(f.clone().into_owned()),
-                        H::O(f) => H::O(f.clone().into_owned()),
-                    };
-                } else if *op == "r" {
-                    // as_ref: a borrowed copy; keep using the original handle kind (the copy is
-                    // observationally identical, which is what the op checks through later ops)
-                    match &cur {
-                        H::B(f) => {
-                            let g = f.as_ref();
-                            let _ = g.needle().len();
-                        }
-                        H::O(f) => {
-                            let g = f.as_ref();
-                            let _ = g.needle().len();
-                        }
-                    }
-                }
-            });
-            // `n` and the bookkeeping Vec pushes allocate in the harness, not in memchr:
-            // only count allocations of the ops that call into memchr without harness output
-            if *op == "k" || *op == "o" || *op == "r" {
+            if op.starts_with("f:") {
+                let (hb, hp) = hays[i].as_ref().unwrap();
+                let (r, al) = alloc_probe::measure(|| cur.find(hp.slice()));
                 total_allocs += al;
-            } else if op.starts_with("f:") {
-                // subtract the harness' own String/Vec growth: measured separately below
-                total_allocs += al.saturating_sub(2).min(0);
+                out.push(fmt_opt(r));
+                oracle.push(fmt_opt(naive_find(hb, &needle)));
+            } else if *op == "n" {
+                let (_, al) = alloc_probe::measure(|| cur.needle().len());
+                total_allocs += al;
+                out.push(crate::ops2::hex(cur.needle()));
+                oracle.push(crate::ops2::hex(&needle));
+            } else if *op == "k" {
+                let (c2, al) = alloc_probe::measure(|| cur.clone());
+                total_allocs += al;
+                cur = c2;
+            } else if *op == "o" {
+                let (c2, al) = alloc_probe::measure(|| cur.into_owned());
+                total_allocs += al;
+                cur = c2;
+                is_owned = true;
+            } else if *op == "r" {
+                let leaked: &'static memchr::memmem::Finder<'static> = Box::leak(Box::new(cur));
+                let (c2, al) = alloc_probe::measure(|| leaked.as_ref());
+                total_allocs += al;
+                cur = c2;
+                if !is_owned {
+                    borrowed_alive = true;
+                }
+                // the copy borrows from `leaked` (owned or not); it is a borrowed handle again
+                is_owned = false;
+            } else {
+                return None;
             }
         }
-        // after into_owned the original buffer may be destroyed: done implicitly when `cur`
-        // is H::O and nbuf is overwritten below
-        if let H::O(f) = &cur {
-            let keep = f.clone();
-            drop(cur);
-            for b in nbuf.iter_mut() {
-                *b = 0xEE;
+        let rep = verif::take();
+        steps = rep.ticks.iter().sum::<u64>();
+        let _ = borrowed_alive;
+        // after into_owned the original needle buffer may be destroyed
+        if is_owned {
+            unsafe {
+                for k in 0..nlen {
+                    *nptr.add(k) = 0xEE;
+                }
             }
-            if let Some(Some(h)) = hays.iter().rev().find(|h| h.is_some()) {
-                let r = keep.find(h);
-                if r != naive_find(h, &needle) {
+            if let Some(Some((hb, hp))) = hays.iter().rev().find(|h| h.is_some()) {
+                if cur.find(hp.slice()) != naive_find(hb, &needle) || cur.needle() != &needle[..] {
                     out.push("OWNED-NEEDLE-LOST".to_string());
                     oracle.push("ok".to_string());
                 }
             }
         }
+        nbuf.clear();
     }
     let j = |v: &Vec<String>| if v.is_empty() { "-".to_string() } else { v.join(",") };
-    let rep = verif::take();
-    let steps: u64 = rep.ticks.iter().sum();
     Some(format!("ok {} allocs={} steps={} oracle={}", j(&out), total_allocs, steps, j(&oracle)))
 }
